@@ -177,7 +177,7 @@ def arith_jobs(tier, seed):
 
 SPECS['C20'] = dict(
     jobs=arith_jobs, level='exploration', technique='boundary-grid and seeded sweeps with a 128-bit oracle; exhaustive enumeration of the real guard source compiled at 8- and 16-bit size_t; end-to-end probes with a size-recording allocator',
-    rule='GUARD: the five helpers of memory_utils.c on {2^i+d} x {2^j+e} (i,j in 0..64, |d|,|e|<=3) and seeded pairs of independently drawn bit lengths (biased to products straddling 2^64); NARROW: the same source file compiled with size_t narrowed to 8 and 16 bits, all 2^16 and 2^32 operand pairs (a case = one a, all b; counters.narrow_pairs counts pairs); NEWC/HEAD: definite array/map creation and decoder heads with n near 2^56..2^64; GROWF: push / map_add / add_chunk at forged capacities 2^58..2^64-1; SSIZE: cbor_serialized_size over declared string lengths near 2^60..2^64-1 in 16 tree shapes. Oracle (soundness direction only): a guard never answers true when the exact result does not fit; a granted or attempted request is never smaller than n*s; growth never lowers capacity or asks for no more than it has; a computed size is the exact 128-bit total or 0, and serialize_alloc fails cleanly. Non-trivial = product within a factor 4 of 2^64 or sum above 2^63 (GUARD); every narrowed / end-to-end case.',
+    rule='GUARD: the five helpers of memory_utils.c on {2^i+d} x {2^j+e} (i,j in 0..64, |d|,|e|<=3) and seeded pairs of independently drawn bit lengths (biased to products straddling 2^64); NARROW: the same source file compiled with size_t narrowed to 8 and 16 bits, all 2^16 and 2^32 operand pairs (a case = one a, all b; counters.narrow_pairs counts pairs); a discrepancy there is only a candidate — it is scaled up to 64-bit operands and reported only if the real 64-bit function fails on them (a source need not be narrowable; counters.narrow_only_discrepancies counts the candidates that did not carry over); NEWC/HEAD: definite array/map creation and decoder heads with n near 2^56..2^64; GROWF: push / map_add / add_chunk at forged capacities 2^58..2^64-1; SSIZE: cbor_serialized_size over declared string lengths near 2^60..2^64-1 in 16 tree shapes. Oracle (soundness direction only): a guard never answers true when the exact result does not fit; a granted or attempted request is never smaller than n*s; growth never lowers capacity or asks for no more than it has; a computed size is the exact 128-bit total or 0, and serialize_alloc fails cleanly. Non-trivial = product within a factor 4 of 2^64 or sum above 2^63 (GUARD); every narrowed / end-to-end case.',
     assumptions=[COMMON_ASSUME[0], COMMON_ASSUME[2], 'the SMT proof the property text mentions is outside this family of technique; it is replaced by exhaustive checking of the same source at two narrowed widths plus the dense 64-bit grid (the guard is bit-length based, hence uniform in the width: an argument, not a proof)',
                  'forged capacities are set through the public struct exactly as test/array_test.c::test_array_push_overflow does, because no legitimate history reaches a 2^63-slot container'],
     level_text='Exploration: exhaustive at 8- and 16-bit size_t on the real source, dense boundary grid and seeded pairs at 64 bits, boundary probes end to end.',
